@@ -1,0 +1,60 @@
+//go:build verif
+
+package aggsender
+
+import (
+	"context"
+
+	"github.com/agglayer/aggkit/agglayer"
+	"github.com/agglayer/aggkit/aggsender/config"
+	"github.com/agglayer/aggkit/aggsender/db"
+	"github.com/agglayer/aggkit/aggsender/statuschecker"
+	"github.com/agglayer/aggkit/aggsender/types"
+	aggkitcommon "github.com/agglayer/aggkit/common"
+	"github.com/agglayer/aggkit/db/compatibility"
+	"github.com/agglayer/aggkit/log"
+)
+
+// NewVerifWithFlow builds the AggSender like New, except that the flow is built by the
+// external verification harness (/verif) on the storage New would open: buildFlow receives
+// that storage. Only compiled with -tags verif.
+func NewVerifWithFlow(
+	ctx context.Context,
+	logger *log.Logger,
+	cfg config.Config,
+	aggLayerClient agglayer.AgglayerClientInterface,
+	l2Syncer types.L2BridgeSyncer,
+	epochNotifier types.EpochNotifier,
+	buildFlow func(storage db.AggSenderStorage) (types.AggsenderFlow, error)) (*AggSender, error) {
+	storage, err := db.NewAggSenderSQLStorage(logger, db.AggSenderSQLStorageConfig{
+		DBPath:                  cfg.StoragePath,
+		KeepCertificatesHistory: cfg.KeepCertificatesHistory,
+	})
+	if err != nil {
+		return nil, err
+	}
+	flowManager, err := buildFlow(storage)
+	if err != nil {
+		return nil, err
+	}
+	l2OriginNetwork := l2Syncer.OriginNetwork()
+	return &AggSender{
+		cfg:            cfg,
+		log:            logger,
+		storage:        storage,
+		aggLayerClient: aggLayerClient,
+		epochNotifier:  epochNotifier,
+		status:         &types.AggsenderStatus{Status: types.StatusNone},
+		flow:           flowManager,
+		rateLimiter:    aggkitcommon.NewRateLimit(cfg.MaxSubmitCertificateRate),
+		compatibilityStoragedChecker: compatibility.NewCompatibilityCheck(
+			cfg.RequireStorageContentCompatibility,
+			func(ctx context.Context) (db.RuntimeData, error) {
+				return db.RuntimeData{NetworkID: l2OriginNetwork}, nil
+			},
+			compatibility.NewKeyValueToCompatibilityStorage[db.RuntimeData](storage, aggkitcommon.AGGSENDER),
+		),
+		l2OriginNetwork:   l2OriginNetwork,
+		certStatusChecker: statuschecker.NewCertStatusChecker(logger, storage, aggLayerClient, l2OriginNetwork),
+	}, nil
+}
